@@ -381,3 +381,44 @@ def fancy_aug_sites(ev, roots=None):
             continue
         out.append((e, f"{e.target} {e.op or '+'}= ... with an array index: repeated indices are applied once, not accumulated"))
     return out
+
+
+def flat_of(term: P) -> P:
+    """x.flatten() / x.ravel() / x.reshape(-1) / numpy.ravel(x)  ->  x   (one spelling for 'all entries of x in order')."""
+    a = term.as_atom()
+    if a and a[0] == "call":
+        cn = call_name(a)
+        if cn in (".flatten", ".ravel") and not a[2]:
+            return a[1].as_atom()[1]
+        if cn == ".reshape" and len(a[2]) == 1 and a[2][0].key() == "-1":
+            return a[1].as_atom()[1]
+        if cn in ("numpy.ravel",) and len(a[2]) == 1:
+            return a[2][0]
+    return term
+
+
+def stack_columns(term: P):
+    """The column terms of an (N, k) array written as np.c_[a, b, c] / np.column_stack((a, b, c)) / np.stack((a, b, c), axis=1 or -1) /
+    np.array([a, b, c]).T / np.vstack((a, b, c)).T, through dtype conversions; None if the term is not such a construction."""
+    from ..symex import seq_items
+    a = term.as_atom()
+    while a and a[0] == "call" and call_name(a) in (".astype", "numpy.asarray", "numpy.ascontiguousarray", "numpy.array") and \
+            (call_name(a) != "numpy.array" or not seq_items(a[2][0])):
+        term = a[1].as_atom()[1] if call_name(a).startswith(".") else a[2][0]
+        a = term.as_atom()
+    if not a:
+        return None
+    if a[0] == "sub" and a[1].key() == "numpy.c_":
+        return list(a[2])
+    if a[0] == "call":
+        cn = call_name(a)
+        kw = dict(a[3]) if len(a) > 3 and a[3] else {}
+        if cn == "numpy.column_stack" and len(a[2]) == 1:
+            return seq_items(a[2][0])
+        if cn == "numpy.stack" and len(a[2]) >= 1 and (kw.get("axis") or (a[2][1] if len(a[2]) > 1 else P.const(0))).key() in ("1", "-1"):
+            return seq_items(a[2][0])
+    if a[0] == "T":
+        inner = a[1].as_atom()
+        if inner and inner[0] == "call" and call_name(inner) in ("numpy.array", "numpy.vstack", "numpy.stack") and inner[2]:
+            return seq_items(inner[2][0])
+    return None
